@@ -9,6 +9,8 @@ Mirrors, function by function (Go file and function named at each definition):
   internal/server/tables/rows.go       ReadRows / InsertRows / UpdateRows / DeleteRows (the authorization part)
   internal/dsns/dsn_file.go            ReadDSN, WriteDSN, DeleteDSN, RevokeAllDSN, AuthDSN, GrantDSN
   internal/dsns/identity.go            IdentityAuthorizesAction
+  internal/dsns/dsn_sqldb.go           ReadDSN, WriteDSN, DeleteDSN, RevokeAllDSN, AuthDSN, GrantDSN (database service)
+  internal/caches                      Find / Add / Delete on DSNCache, as a memo next to the stored rows
 
 `authorized` mirrors the FIXED `Authorized(session, user, dsn, table, ops...)` (fixes/C43.patch: the DSN and the
 table are separate parameters).  `authorizedOld` mirrors the code before the fix, which received the single
@@ -375,5 +377,168 @@ def step (st : St) : Op → St
   | .grantDSN u n a g => (grantDSN st u n a g).getD st
 
 def run (st : St) (h : List Op) : St := h.foldl step st
+
+/-! ### the DATABASE DSN service (internal/dsns/dsn_sqldb.go) and its DSN cache (internal/caches)
+
+`databaseService` keeps the DSN records in table "dsns" (primary key: name) and the DSN-level grants in table
+"dsns_auth" (one row per (user, dsn), addressed with the two bound-parameter filters `user = $1 and dsn = $2`;
+no joined "user|dsn" key).  Every reader — `database.Open`, `AuthDSN`, `GrantDSN`, `tables.Authorized` — goes
+through `ReadDSN`, which serves from `caches.DSNCache` and fills it on a miss; `WriteDSN` and `DeleteDSN` evict the
+entry (WriteDSN re-adds the record it wrote).  The cache is modelled as a second association list next to the
+stored rows; `DSt.CacheOK` (Props.lean) is the memo invariant "a cache entry equals the stored row".  The real
+cache may also drop an entry at any time (expiry after 60 s without use, `caches.Add` refusing when full, an
+administrator's purge): that is the operation `dbEvict`. -/
+
+/-- the decision part of security.go Authorized once ReadDSN has answered `rd` -/
+def authorizedCore (rd : Option Bool) (perms : List Rec) (sessUser : Name) (sessAdmin : Bool)
+    (user dsn table : Name) (ops : List Name) : Bool :=
+  if user = sessUser ∧ sessAdmin = true then true
+  else match rd with
+    | none => false
+    | some restricted =>
+      if !restricted then true
+      else match lookup perms user dsn table with
+        | [r] => ops.all fun op => r.permits (opOfName op)
+        | _ => false
+
+/-- the decision part of AuthDSN once ReadDSN has answered `rd` and the auth record is `entry` -/
+def authDSNCore (rd : Option Bool) (entry : Option Act) (action : Act) : Bool :=
+  match rd with
+  | none => false
+  | some restricted =>
+    if !restricted then true
+    else match entry with
+      | some v => v.meets action
+      | none => false
+
+/-- the decision part of a row handler: `rd` = the DSN record database.Open read (db.Restricted), the three
+    authorizations already evaluated -/
+def rowCore (rd : Option Bool) (admin idOK dsnOK tblOK : Bool) : Status :=
+  match rd with
+  | none => .noDSN
+  | some restricted =>
+    if !admin && !idOK && !dsnOK then .forbidden
+    else if restricted && !admin && !tblOK then .forbidden
+    else .pass
+
+structure DSt where
+  rows : List (Name × Bool)          -- table "dsns": name ↦ restricted
+  cache : List (Name × Bool)         -- caches.DSNCache: name ↦ restricted flag of the cached *defs.DSN
+  dauth : List (Name × Name × Act)   -- table "dsns_auth": (user, dsn, action)
+  perms : List Rec                   -- rows of table_perms
+deriving Repr
+
+def DSt.init : DSt := ⟨[], [], [], []⟩
+
+/-- `authHandle.Read(Equals("user", user), Equals("dsn", name))`, first row -/
+def dauthFind (m : List (Name × Name × Act)) (u d : Name) : Option Act :=
+  match m with
+  | [] => none
+  | e :: rest => if e.1 = u ∧ e.2.1 = d then some e.2.2 else dauthFind rest u d
+
+/-- GrantDSN's `authHandle.Update(auth, user=, dsn=)` when a row exists, `authHandle.Insert(auth)` otherwise -/
+def dauthSet (m : List (Name × Name × Act)) (u d : Name) (v : Act) : List (Name × Name × Act) :=
+  if (dauthFind m u d).isSome then m.map fun e => if e.1 = u ∧ e.2.1 = d then (u, d, v) else e
+  else m ++ [(u, d, v)]
+
+/-- databaseService.RevokeAllDSN: `authHandle.Delete(Equals("dsn", name))` -/
+def dauthRevokeAll (m : List (Name × Name × Act)) (name : Name) : List (Name × Name × Act) :=
+  m.filter fun e => !(e.2.1 = name)
+
+/-- databaseService.ReadDSN: `caches.Find`, on a miss `dsnHandle.ReadOne(name)` + `caches.Add` -/
+def dbReadDSN (s : DSt) (name : Name) : DSt × Option Bool :=
+  match s.cache.lookup name with
+  | some r => (s, some r)
+  | none =>
+    match s.rows.lookup name with
+    | some r => ({ s with cache := setKey s.cache name r }, some r)
+    | none => (s, none)
+
+/-- an entry leaves the cache without any DSN operation (expiry, full cache, purge) -/
+def dbEvict (s : DSt) (name : Name) : DSt := { s with cache := delKey s.cache name }
+
+/-- databaseService.WriteDSN: `caches.Delete`, insert-or-update of the row, `caches.Add(name, &dsn)` -/
+def dbWriteDSN (s : DSt) (name : Name) (restricted : Bool) : DSt :=
+  { s with rows := setKey s.rows name restricted, cache := setKey (delKey s.cache name) name restricted }
+
+/-- databaseService.DeleteDSN: `caches.Delete`; `DeleteOne(name)`; only when a row was deleted, RevokeAllDSN -/
+def dbDeleteDSN (s : DSt) (name : Name) : DSt :=
+  match s.rows.lookup name with
+  | some _ => { s with cache := delKey s.cache name, rows := delKey s.rows name, dauth := dauthRevokeAll s.dauth name }
+  | none => { s with cache := delKey s.cache name }
+
+def dbRevokeAllDSN (s : DSt) (name : Name) : DSt := { s with dauth := dauthRevokeAll s.dauth name }
+
+/-- databaseService.AuthDSN -/
+def dbAuthDSN (s : DSt) (user name : Name) (action : Act) : DSt × Bool :=
+  let r := dbReadDSN s name
+  (r.1, authDSNCore r.2 (dauthFind r.1.dauth user name) action)
+
+/-- databaseService.GrantDSN; none = ErrNoSuchDSN.  The first grant on an unrestricted DSN marks it restricted
+    THROUGH WriteDSN (which also replaces the cache entry). -/
+def dbGrantDSN (s : DSt) (user name : Name) (action : Act) (g : Bool) : Option DSt :=
+  let r := dbReadDSN s name
+  match r.2 with
+  | none => none
+  | some restricted =>
+    let v : Act := match dauthFind r.1.dauth user name with
+      | some v => if g then v.or action else v.andNot action
+      | none => if g then action else Act.none
+    let s2 := if !restricted then dbWriteDSN r.1 name true else r.1
+    some { s2 with dauth := dauthSet s2.dauth user name v }
+
+/-- security.go Authorized against the database DSN service -/
+def dbAuthorized (s : DSt) (sessUser : Name) (sessAdmin : Bool) (user dsn table : Name) (ops : List Name) : DSt × Bool :=
+  if user = sessUser ∧ sessAdmin = true then (s, true)
+  else
+    let r := dbReadDSN s dsn
+    (r.1, authorizedCore r.2 r.1.perms sessUser sessAdmin user dsn table ops)
+
+/-- a row handler against the database DSN service: database.Open reads the DSN (db.Restricted is THAT answer),
+    AuthDSN is only called when the session is no administrator and its identity does not cover the action,
+    Authorized only for a restricted DSN and a non-administrator -/
+def dbRowRequest (s : DSt) (user : Name) (admin : Bool) (idp : Act) (op : RowOp) (dsn table : Name) : DSt × Status :=
+  let r1 := dbReadDSN s dsn
+  match r1.2 with
+  | none => (r1.1, .noDSN)
+  | some restricted =>
+    let r2 : DSt × Bool :=
+      if !admin && !(identityAuthorizes idp op.action) then dbAuthDSN r1.1 user dsn op.action else (r1.1, true)
+    if !r2.2 then (r2.1, .forbidden)
+    else if restricted && !admin then
+      let r3 := dbAuthorized r2.1 user admin user dsn table [op.perm]
+      (r3.1, if r3.2 then .pass else .forbidden)
+    else (r2.1, .pass)
+
+/-- histories against the database DSN service; the queries are part of a history because they fill the cache -/
+inductive DOp where
+  | perms (op : Op)                    -- grant / revoke / create / removeTable / deleteByDSN on table_perms
+  | writeDSN (name : Name) (restricted : Bool)
+  | deleteDSN (name : Name)
+  | revokeAllDSN (name : Name)
+  | grantDSN (u name : Name) (action : Act) (g : Bool)
+  | evict (name : Name)
+  | readDSN (name : Name)
+  | authDSN (u name : Name) (action : Act)
+  | authorized (su : Name) (sa : Bool) (u d t : Name) (ops : List Name)
+  | row (u : Name) (admin : Bool) (idp : Act) (op : RowOp) (d t : Name)
+deriving Repr
+
+/-- the table_perms part of `step` (the DSN operations of `Op` leave table_perms alone) -/
+def permsStep (ps : List Rec) (op : Op) : List Rec := (step ⟨[], [], ps⟩ op).perms
+
+def dstep (s : DSt) : DOp → DSt
+  | .perms op => { s with perms := permsStep s.perms op }
+  | .writeDSN n r => dbWriteDSN s n r
+  | .deleteDSN n => dbDeleteDSN s n
+  | .revokeAllDSN n => dbRevokeAllDSN s n
+  | .grantDSN u n a g => (dbGrantDSN s u n a g).getD s
+  | .evict n => dbEvict s n
+  | .readDSN n => (dbReadDSN s n).1
+  | .authDSN u n a => (dbAuthDSN s u n a).1
+  | .authorized su sa u d t ops => (dbAuthorized s su sa u d t ops).1
+  | .row u adm idp op d t => (dbRowRequest s u adm idp op d t).1
+
+def drun (s : DSt) (h : List DOp) : DSt := h.foldl dstep s
 
 end EgoVerif.C43
